@@ -289,14 +289,18 @@ class SimplifySymbolNames:
     def __mutate_symbol(self, symbol, input_):
         """Return a list of mutations of input_ based on simpler versions of
         symbol."""
+        # The simpler name must not be taken: neither by a variable nor by
+        # a declared or defined function (which has a sort, but is no variable)
         if is_piped_symbol(symbol):
             for s in self.__simpler(get_piped_symbol(symbol)):
-                if not is_var(Node('|' + s + '|')):
-                    yield Simplification({symbol: Node('|' + s + '|')}, [])
+                cand = Node('|' + s + '|')
+                if not is_var(cand) and get_sort(cand) is None:
+                    yield Simplification({symbol: cand}, [])
         else:
             for s in self.__simpler(symbol):
-                if not is_var(Node(s)):
-                    yield Simplification({symbol: Node(s)}, [])
+                cand = Node(s)
+                if not is_var(cand) and get_sort(cand) is None:
+                    yield Simplification({symbol: cand}, [])
 
     def __simpler(self, symbol):
         """Return a list of simpler versions of the given symbol."""
